@@ -83,7 +83,7 @@ def run(ctx):
         raise Inconclusive("the as-coded model no longer violates any property: the named deviations need review")
     hs = histories(ctx, gens["one"])
     if quick:
-        hs = hs[ctx.seed % 16::16]
+        hs = hs[ctx.seed % 8::8]
     else:
         two = histories(ctx, gens["two"])
         # the two-transaction histories are far more numerous: an evenly spaced sample of 30 000
@@ -96,7 +96,7 @@ def run(ctx):
 
     drv = built["drv"]
     shards = 4
-    nrand = 150 if quick else 4000
+    nrand = 300 if quick else 4000
     argvs, traces = [], []
     for k in range(shards):
         sp = os.path.join(ctx.scratch, "script%d.json" % k)
